@@ -178,8 +178,7 @@ Inductive err :=
 | EInvalidSpec | ERepeatedFlag | EDelimiter | EFailure
 | EFault                               (* Go runtime fault *)
 | EOther
-| EOracle                              (* an oracle table lacks an entry (never observed) *)
-| EOutOfFuel.
+| EOracle.                             (* an oracle table lacks an entry (never observed) *)
 
 Inductive R (A : Type) := ROk (a : A) | RErr (e : err).
 Arguments ROk {A} a.
@@ -898,7 +897,34 @@ Fixpoint new_format_map (m : list (tkey * fent)) : R fmap :=
 
 Definition opt_or {A} (a b : option A) : option A := match a with Some _ => a | None => b end.
 
-(* mergeFormats / merge (format.go:208, :266); None = out of fuel *)
+(* merge (format.go:266) of the formats that both maps hold for a key, and the loop of
+   mergeFormats over the united keys (format.go:225-237); rec = mergeFormats on the container formats *)
+Definition merge_format (cf : cfmap) (low high : format) : format :=
+  mkFormat (f_alt high) (f_left high) (f_zero high) (f_char high) (f_plus high)
+           (f_prec high) (f_width high) (f_delim high)
+           (opt_or (f_sep high) (f_sep low)) (opt_or (f_sep2 high) (f_sep2 low)) cf.
+
+Fixpoint merge_keys (rec : cfmap -> cfmap -> option cfmap) (norm hi : fmap) (ks : list tkey) : option fmap :=
+  match ks with
+  | [] => Some []
+  | k :: r =>
+    match merge_keys rec norm hi r with
+    | None => None
+    | Some r' =>
+      match assoc tkey_eqb k norm, assoc tkey_eqb k hi with
+      | Some low, Some high =>
+        match rec (f_cf low) (f_cf high) with
+        | None => None
+        | Some cf => Some ((k, merge_format cf low high) :: r')
+        end
+      | Some low, None => Some ((k, low) :: r')
+      | None, Some high => Some ((k, high) :: r')
+      | None, None => Some r'
+      end
+    end
+  end.
+
+(* mergeFormats (format.go:208); None = out of fuel *)
 Fixpoint merge_formats (n : nat) (lower higher : cfmap) : option cfmap :=
   match n with
   | O => None
@@ -911,30 +937,7 @@ Fixpoint merge_formats (n : nat) (lower higher : cfmap) : option cfmap :=
       let hkeys := List.map fst hi in
       let norm := filter (fun le => negb (existsb (fun hk => negb (tkey_eqb hk (fst le)) && key_sub hk (fst le)) hkeys)) lo in
       let keys := uniq_keys (List.map fst norm ++ hkeys) [] in
-      let merged :=
-          (fix go (ks : list tkey) : option fmap :=
-             match ks with
-             | [] => Some []
-             | k :: r =>
-               match go r with
-               | None => None
-               | Some r' =>
-                 match assoc tkey_eqb k norm, assoc tkey_eqb k hi with
-                 | Some low, Some high =>
-                   match merge_formats n' (f_cf low) (f_cf high) with
-                   | None => None
-                   | Some cf =>
-                     Some ((k, mkFormat (f_alt high) (f_left high) (f_zero high) (f_char high) (f_plus high)
-                                        (f_prec high) (f_width high) (f_delim high)
-                                        (opt_or (f_sep high) (f_sep low)) (opt_or (f_sep2 high) (f_sep2 low)) cf) :: r')
-                   end
-                 | Some low, None => Some ((k, low) :: r')
-                 | None, Some high => Some ((k, high) :: r')
-                 | None, None => Some r'
-                 end
-               end
-             end) keys in
-      match merged with
+      match merge_keys (merge_formats n') norm hi keys with
       | None => None
       | Some l => Some (CfMap (insertion_sort (fun a b => key_less (fst a) (fst b)) l))
       end
@@ -951,17 +954,20 @@ Fixpoint fent_depth (e : fent) : nat :=
 Fixpoint fmap_depth (m : list (tkey * fent)) : nat :=
   match m with [] => 0%nat | (_, e) :: r => Nat.max (fent_depth e) (fmap_depth r) end.
 
-(* newFormatContext3 (format.go:185): the format map of the context *)
-Definition context_of (spec : fspec) : R fmap :=
+(* newFormatContext3 (format.go:185): the format map of the context; None = mergeFormats out of fuel *)
+Definition context_of (spec : fspec) : option (R fmap) :=
   match spec with
-  | FDefault => ROk default_formats
-  | FStr s => bind (parse_format s None None CfNone) (fun f => ROk [(KSelf, f)])
+  | FDefault => Some (ROk default_formats)
+  | FStr s => Some (bind (parse_format s None None CfNone) (fun f => ROk [(KSelf, f)]))
   | FMap m =>
-    bind (new_format_map m) (fun hm =>
+    match new_format_map m with
+    | RErr e => Some (RErr e)
+    | ROk hm =>
       match merge_formats (S (S (fmap_depth m))) (CfMap default_formats) (CfMap hm) with
-      | None => RErr EOutOfFuel
-      | Some c => ROk (cf_entries c)
-      end)
+      | None => None
+      | Some c => Some (ROk (cf_entries c))
+      end
+    end
   end.
 
 (* ------------------------------------------------------------------------------------------ *)
@@ -1097,14 +1103,13 @@ Fixpoint vdepth (v : value) : nat :=
   | _ => 1%nat
   end.
 
-(* px.NewFormatContext3(value, spec) then px.ToString2(value, ctx) *)
-Definition format_value (o : oracle) (v : value) (spec : fspec) : obs :=
+(* px.NewFormatContext3(value, spec) then px.ToString2(value, ctx); None = out of fuel (excluded by
+   format_total) *)
+Definition format_value (o : oracle) (v : value) (spec : fspec) : option obs :=
   match context_of spec with
-  | RErr e => OErr e
-  | ROk m => match render (S (vdepth v)) o default_indentation m false v with
-             | None => OErr EOutOfFuel
-             | Some r => r
-             end
+  | None => None
+  | Some (RErr e) => Some (OErr e)
+  | Some (ROk m) => render (S (vdepth v)) o default_indentation m false v
   end.
 
 (* ------------------------------------------------------------------------------------------ *)
